@@ -157,6 +157,14 @@ pub fn mutate_arg(rng: &mut Rng, a: &[u8]) -> Vec<u8> {
         b"^", b"$", b"!", b"\\", b"#", b"(", b")", b"+", b"~", b"\x0b", b"\x0c", b"\r", b"pre", b"rc", b"alpha", b"pl",
         b"$NetBSD", b"PKGNAME=", b"../", b"./", b"\n\n", b"nb1", b"0", b"_",
     ];
+    // words that mean something to SOME module of the library (or to pkgsrc tooling): wherever only
+    // text is expected they must stay text
+    let domain: [&[u8]; 44] = [
+        b"IGNORE", b"ignore", b"none", b"NULL", b"$NetBSD$", b"$NetBSD: x,v 1.1 $", b"NetBSD", b"sha1 ", b"SHA1 ", b"BLAKE2S", b"md5",
+        b"Size", b"bytes", b"@comment ", b"@ignore", b"@cwd /", b"+DESC", b"+CONTENTS", b"PKGNAME=", b"ALL_DEPENDS=", b"DESCRIPTION=",
+        b"../../cat/pkg", b"cat/pkg", b":../../a/b", b"-[0-9]*", b">=1.0", b"<2", b"{a,b}", b"nb0", b"nb", b"pre", b"alpha", b".tgz",
+        b".tbz", b".txz", b".tar.", b"patch-", b"emul-", b"\"", b"'", b"1048577", b"65536", b"4294967296", b"9223372036854775807",
+    ];
     let high: [&[u8]; 8] = [b"\xff", b"\xc3", b"\xe2\x82", b"\x80", b"\xa0", b"\x85", b"\xc3\xa9", b"\xf0\x9f\x92\x96"];
     let as_str = std::str::from_utf8(a).ok();
     let keep_utf8 = as_str.is_some() && rng.chance(3, 4);
@@ -167,7 +175,22 @@ pub fn mutate_arg(rng: &mut Rng, a: &[u8]) -> Vec<u8> {
     };
     let pick_cut = |rng: &mut Rng| -> usize { cuts[rng.below(cuts.len())] };
     let mut out = a.to_vec();
-    match rng.below(16) {
+    match rng.below(18) {
+        16 => {
+            // a domain word inserted somewhere, or at the very start / end
+            let ins: &[u8] = *rng.pick::<&[u8]>(&domain);
+            let c = match rng.below(3) { 0 => 0, 1 => out.len(), _ => pick_cut(rng) };
+            out.splice(c..c, ins.iter().cloned());
+        }
+        17 => {
+            // the whole argument replaced by a domain word (optionally followed by the old text)
+            let ins: &[u8] = *rng.pick::<&[u8]>(&domain);
+            let old = std::mem::take(&mut out);
+            out.extend(ins);
+            if rng.chance(1, 2) {
+                out.extend(old);
+            }
+        }
         12 => {
             // something at the very start or the very end (prefix / suffix handling)
             let ins: &[u8] = *rng.pick::<&[u8]>(&[b"\xef\xbb\xbf", b" ", b"\n", b"\r\n", b"\t", b".tgz", b"/", b":", b"\0", b"-", b"\xc2\xa0", b"\xe3\x80\x80", b"@", b"="]);
